@@ -63,6 +63,7 @@ type scenario struct {
 	ccEach   []int // optional per backend override (set after config.Init)
 	bs       []beSpec
 	req      reqSpec
+	seq      []reqSpec // instance reuse streams: the requests one instance serves
 }
 
 type sent struct {
@@ -264,20 +265,40 @@ func gqlOut(be *config.Backend, rq reqSpec) (*gout, bool) {
 	return nil, true
 }
 
-func runEndpoint(ep *config.EndpointConfig, rq reqSpec) runResult {
-	res := runResult{sent: make([][]sent, len(ep.Backend))}
+// one processed request: where its executor calls are recorded and meet
+type runState struct {
+	bar  *barrier
+	mu   sync.Mutex
+	sent [][]sent
+	wg   sync.WaitGroup
+}
+
+type runKey struct{}
+
+// one factory-built endpoint proxy (instance).  The stub executors are bound when the factory
+// runs; every call finds the request it belongs to through the context, so that one instance
+// can serve a sequence of requests and several requests at the same time.
+type instance struct {
+	ep  *config.EndpointConfig
+	p   proxy.Proxy
+	err string
+}
+
+func newInstance(ep *config.EndpointConfig) *instance {
+	in := &instance{ep: ep}
 	idx := map[*config.Backend]int{}
 	for i, be := range ep.Backend {
 		idx[be] = i
 	}
-	bar := newBarrier(expectedCalls(ep, rq))
-	var mu sync.Mutex
-	var wg sync.WaitGroup
 	bf := func(be *config.Backend) proxy.Proxy {
 		k := idx[be]
-		ex := func(_ context.Context, r *http.Request) (*http.Response, error) {
-			wg.Add(1)
-			defer wg.Done()
+		ex := func(ctx context.Context, r *http.Request) (*http.Response, error) {
+			run, _ := ctx.Value(runKey{}).(*runState)
+			if run == nil {
+				return nil, fmt.Errorf("executor called outside a recorded request")
+			}
+			run.wg.Add(1)
+			defer run.wg.Done()
 			s := sent{Method: r.Method, URL: r.URL.Scheme + "://" + r.URL.Host + r.URL.Path, Hdr: cloneMM(r.Header)}
 			q, err := url.ParseQuery(r.URL.RawQuery)
 			if err != nil {
@@ -288,10 +309,10 @@ func runEndpoint(ep *config.EndpointConfig, rq reqSpec) runResult {
 				b, _ := io.ReadAll(r.Body)
 				s.Body = string(b)
 			}
-			mu.Lock()
-			res.sent[k] = append(res.sent[k], s)
-			mu.Unlock()
-			bar.wait()
+			run.mu.Lock()
+			run.sent[k] = append(run.sent[k], s)
+			run.mu.Unlock()
+			run.bar.wait()
 			return &http.Response{StatusCode: 200, Header: http.Header{"Content-Type": {"application/json"}},
 				Body: io.NopCloser(strings.NewReader(fmt.Sprintf(`{"k%d":1}`, k)))}, nil
 		}
@@ -299,9 +320,23 @@ func runEndpoint(ep *config.EndpointConfig, rq reqSpec) runResult {
 	}
 	p, err := proxy.NewDefaultFactory(bf, logging.NoOp).New(ep)
 	if err != nil {
-		res.panicked = "factory: " + err.Error()
+		in.err = "factory: " + err.Error()
+	}
+	in.p = p
+	return in
+}
+
+// call sends one client request through the instance.  quiesce: wait (bounded yield loop,
+// only for attributing late race reports) until the goroutines of this request are gone.
+func (in *instance) call(rq reqSpec, quiesce bool) runResult {
+	ep := in.ep
+	res := runResult{}
+	if in.err != "" {
+		res.sent = make([][]sent, len(ep.Backend))
+		res.panicked = in.err
 		return res
 	}
+	run := &runState{bar: newBarrier(expectedCalls(ep, rq)), sent: make([][]sent, len(ep.Backend))}
 	// the client's own maps: kept by reference, their contents are compared afterwards
 	h0, q0, p0 := cloneMM(rq.hdr), cloneMM(rq.qry), cloneSM(rq.par)
 	req := &proxy.Request{Method: ep.Method, Headers: h0, Query: q0, Params: p0}
@@ -315,24 +350,47 @@ func runEndpoint(ep *config.EndpointConfig, rq reqSpec) runResult {
 				res.panicked = fmt.Sprint(r)
 			}
 		}()
-		ctx, cancel := context.WithTimeout(context.Background(), 60*time.Second)
+		ctx, cancel := context.WithTimeout(context.WithValue(context.Background(), runKey{}, run), 60*time.Second)
 		defer cancel()
-		p(ctx, req)
+		in.p(ctx, req)
 	}()
-	// the concurrent middleware returns at the first complete answer: let the other attempts
-	// and every goroutine of this request finish before the next one starts (bounded yield
-	// loop: only for attributing late race reports, nothing depends on it)
-	wg.Wait()
-	for i := 0; i < 200000 && runtime.NumGoroutine() > base; i++ {
-		runtime.Gosched()
+	// the concurrent middleware returns at the first complete answer: every attempt has passed
+	// the barrier by then; wait for the executors to return
+	run.wg.Wait()
+	if quiesce {
+		for i := 0; i < 200000 && runtime.NumGoroutine() > base; i++ {
+			runtime.Gosched()
+		}
 	}
-	bar.mu.Lock()
-	res.timedOut = bar.timedOut
-	bar.mu.Unlock()
-	mu.Lock()
-	defer mu.Unlock()
+	run.bar.mu.Lock()
+	res.timedOut = run.bar.timedOut
+	run.bar.mu.Unlock()
+	run.mu.Lock()
+	defer run.mu.Unlock()
+	res.sent = make([][]sent, len(run.sent))
+	for k := range run.sent {
+		res.sent[k] = append([]sent(nil), run.sent[k]...)
+	}
 	res.afterHdr, res.afterQry, res.afterPar = cloneMM(h0), cloneMM(q0), cloneSM(p0)
 	return res
+}
+
+func runEndpoint(ep *config.EndpointConfig, rq reqSpec) runResult {
+	return newInstance(ep).call(rq, true)
+}
+
+func (r runResult) key() string {
+	var sb strings.Builder
+	for k, xs := range r.sent {
+		ks := make([]string, len(xs))
+		for i, x := range xs {
+			ks[i] = x.key()
+		}
+		sort.Strings(ks)
+		fmt.Fprintf(&sb, "[%d:%s]", k, strings.Join(ks, ";"))
+	}
+	fmt.Fprintf(&sb, "|%s|%s|%s|%v|%s", emit.MultiMap(r.afterHdr), emit.MultiMap(r.afterQry), emit.StrMap(r.afterPar), r.timedOut, r.panicked)
+	return sb.String()
 }
 
 // ---------------------------------------------------------------- race log
@@ -492,24 +550,18 @@ func main() {
 	}
 	raceReports := 0
 
-	runCase := func(sc scenario) {
-		canon := fmt.Sprintf("%s|%s|%d|%v|%+v|%v|%v|%v|%v", sc.name, sc.epMethod, sc.cc, sc.ccEach, describe(sc.bs), sc.req.hdr, sc.req.qry, sc.req.par, sc.req.body != nil)
-		ep, err := buildEndpoint(sc, -1)
-		if err != nil {
-			w.Count("rejected-by-config")
-			return
-		}
-		if cfg.Only >= 0 && w.N() != cfg.Only {
-			w.Add("", nil, "", canon, false) // replay of another index: keep the numbering, run nothing
-			return
-		}
-		// the statement excludes a body shared by shallow clones: never generate it
-		rq := sc.req
+	canonOf := func(sc scenario, stream string, step int, rq reqSpec) string {
+		return fmt.Sprintf("%s|%s|%d|%s|%s|%d|%v|%+v|%v|%v|%v|%v", sc.name, stream, step, sc.name, sc.epMethod, sc.cc, sc.ccEach, describe(sc.bs), rq.hdr, rq.qry, rq.par, rq.body != nil)
+	}
+	// the statement excludes a body shared by shallow clones: never generate it
+	inScope := func(ep *config.EndpointConfig, rq reqSpec) reqSpec {
 		if rq.body != nil && len(ep.Backend) > 1 && !unsafeMethod(ep) {
 			rq.body = nil
 		}
-		n := len(ep.Backend)
-		// alone: each backend as the endpoint's only backend (once; the code is deterministic there)
+		return rq
+	}
+	// alone: each backend as the only backend of a FRESH endpoint (the code is deterministic there)
+	observeAlone := func(sc scenario, n int, rq reqSpec) ([][]sent, []string) {
 		alone := make([][]sent, n)
 		var problems []string
 		for k := 0; k < n; k++ {
@@ -524,32 +576,20 @@ func main() {
 				problems = append(problems, fmt.Sprintf("solo %d: timeout=%v panic=%q", k, rr.timedOut, rr.panicked))
 			}
 		}
-		// fan-out, repeated; keep the first run in which some backend was sent something else
-		// than alone (else the first)
-		var keep *runResult
-		for i := 0; i < reps; i++ {
-			rr := runEndpoint(ep, rq)
-			if rr.timedOut || rr.panicked != "" {
-				problems = append(problems, fmt.Sprintf("fan-out: timeout=%v panic=%q", rr.timedOut, rr.panicked))
-			}
-			differs := false
-			for k := 0; k < n; k++ {
-				if !sameSents(rr.sent[k], alone[k]) {
-					differs = true
-				}
-			}
-			if keep == nil || differs {
-				c := rr
-				keep = &c
-			}
-			if differs {
-				break
+		return alone, problems
+	}
+	differs := func(rr runResult, alone [][]sent) bool {
+		for k := range alone {
+			if !sameSents(rr.sent[k], alone[k]) {
+				return true
 			}
 		}
-		var reports []string
-		if raceMode {
-			reports = rl.fresh()
-			raceReports += len(reports)
+		return false
+	}
+	emitCase := func(sc scenario, stream string, step int, ep *config.EndpointConfig, rq reqSpec, keep runResult, alone [][]sent, problems []string, reports []string) {
+		n := len(ep.Backend)
+		if keep.timedOut || keep.panicked != "" {
+			problems = append(problems, fmt.Sprintf("fan-out: timeout=%v panic=%q", keep.timedOut, keep.panicked))
 		}
 		race := len(reports) > 0
 		var bl, ol []string
@@ -572,7 +612,7 @@ func main() {
 		if rq.body != nil {
 			bodyJS = *rq.body
 		}
-		js := map[string]interface{}{"scenario": sc.name, "endpoint_method": ep.Method, "backends": bj,
+		js := map[string]interface{}{"scenario": sc.name, "stream": stream, "step": step, "endpoint_method": ep.Method, "backends": bj,
 			"request": map[string]interface{}{"headers": rq.hdr, "query": rq.qry, "params": rq.par, "body": bodyJS},
 			"observed": map[string]interface{}{"per_backend": oj, "race_detector_reports_with_lura_frames": len(reports),
 				"client_headers_after": keep.afterHdr, "client_query_after": keep.afterQry, "client_params_after": keep.afterPar, "problems": problems}}
@@ -583,6 +623,7 @@ func main() {
 			}
 			js["first_race_report"] = rep
 		}
+		w.Count("stream:" + stream)
 		w.Count(fmt.Sprintf("backends:%d", n))
 		w.Count(fmt.Sprintf("cc:%d", ep.Backend[0].ConcurrentCalls))
 		if unsafeMethod(ep) {
@@ -605,16 +646,158 @@ func main() {
 		if rq.body != nil {
 			w.Count("body:present")
 		}
-		w.Add(term, js, "", canon, n > 1 || ep.Backend[0].ConcurrentCalls > 1)
+		w.Add(term, js, "", canonOf(sc, stream, step, rq), n > 1 || ep.Backend[0].ConcurrentCalls > 1)
+	}
+	freshReports := func() []string {
+		if !raceMode {
+			return nil
+		}
+		reports := rl.fresh()
+		raceReports += len(reports)
+		return reports
+	}
+
+	// ---- one fresh instance per request (the original streams)
+	runCase := func(sc scenario) {
+		ep, err := buildEndpoint(sc, -1)
+		if err != nil {
+			w.Count("rejected-by-config")
+			return
+		}
+		rq := inScope(ep, sc.req)
+		if cfg.Only >= 0 && w.N() != cfg.Only {
+			w.Add("", nil, "", canonOf(sc, "fresh", 0, rq), false) // replay of another index: keep the numbering, run nothing
+			return
+		}
+		alone, problems := observeAlone(sc, len(ep.Backend), rq)
+		// fan-out, repeated; keep the first run in which some backend was sent something else
+		// than alone (else the first)
+		var keep *runResult
+		for i := 0; i < reps; i++ {
+			rr := runEndpoint(ep, rq)
+			d := differs(rr, alone)
+			if keep == nil || d {
+				c := rr
+				keep = &c
+			}
+			if d {
+				break
+			}
+		}
+		emitCase(sc, "fresh", 0, ep, rq, *keep, alone, problems, freshReports())
+	}
+
+	// ---- sequential reuse: ONE instance serves the whole sequence sc.seq, every step is a case.
+	// Replay (--only idx) re-runs the sequence from its start up to idx.
+	runSeq := func(sc scenario) {
+		ep, err := buildEndpoint(sc, -1)
+		if err != nil {
+			w.Count("rejected-by-config")
+			return
+		}
+		start, L := w.N(), len(sc.seq)
+		skipAll := cfg.Only >= 0 && (cfg.Only < start || cfg.Only >= start+L)
+		var inst *instance
+		if !skipAll {
+			inst = newInstance(ep)
+		}
+		for i, rq0 := range sc.seq {
+			rq := inScope(ep, rq0)
+			if skipAll || (cfg.Only >= 0 && start+i > cfg.Only) {
+				w.Add("", nil, "", canonOf(sc, "reuse-seq", i, rq), false)
+				continue
+			}
+			rr := inst.call(rq, true)
+			if cfg.Only >= 0 && start+i != cfg.Only {
+				w.Add("", nil, "", canonOf(sc, "reuse-seq", i, rq), false)
+				continue
+			}
+			alone, problems := observeAlone(sc, len(ep.Backend), rq)
+			emitCase(sc, "reuse-seq", i, ep, rq, rr, alone, problems, freshReports())
+		}
+	}
+
+	// ---- concurrent reuse: ONE instance hit by many goroutines released together, a few
+	// distinct requests; every DISTINCT (request, observation) pair is one case, so a run
+	// without interference yields exactly one case per distinct request.
+	runConc := func(sc scenario) {
+		ep, err := buildEndpoint(sc, -1)
+		if err != nil {
+			w.Count("rejected-by-config")
+			return
+		}
+		start, L := w.N(), len(sc.seq)
+		inputs := make([]reqSpec, L)
+		for i, rq0 := range sc.seq {
+			inputs[i] = inScope(ep, rq0)
+		}
+		if cfg.Only >= 0 && cfg.Only < start {
+			for i := range inputs {
+				w.Add("", nil, "", canonOf(sc, "reuse-conc", i, inputs[i]), false)
+			}
+			return
+		}
+		alone := make([][][]sent, L)
+		probs := make([][]string, L)
+		for i := range inputs {
+			alone[i], probs[i] = observeAlone(sc, len(ep.Backend), inputs[i])
+		}
+		freshReports() // reports so far belong to the solo runs above (none expected)
+		inst := newInstance(ep)
+		const G, iters = 12, 6
+		type obs struct {
+			in int
+			rr runResult
+		}
+		var mu sync.Mutex
+		seen := map[string]obs{}
+		gate := make(chan struct{})
+		var wg sync.WaitGroup
+		for g := 0; g < G; g++ {
+			wg.Add(1)
+			go func(g int) {
+				defer wg.Done()
+				<-gate
+				for j := 0; j < iters; j++ {
+					in := (g + j) % L
+					rr := inst.call(inputs[in], false)
+					k := fmt.Sprintf("%03d|%s", in, rr.key())
+					mu.Lock()
+					if _, ok := seen[k]; !ok {
+						seen[k] = obs{in, rr}
+					}
+					mu.Unlock()
+				}
+			}(g)
+		}
+		close(gate)
+		wg.Wait()
+		reports := freshReports()
+		keys := make([]string, 0, len(seen))
+		for k := range seen {
+			keys = append(keys, k)
+		}
+		sort.Strings(keys)
+		for _, k := range keys {
+			o := seen[k]
+			emitCase(sc, "reuse-conc", o.in, ep, inputs[o.in], o.rr, alone[o.in], probs[o.in], reports)
+		}
 	}
 
 	for _, sc := range scenarios(cfg, r, raceMode) {
 		runCase(sc)
 	}
+	seqs, concs := reuseScenarios(cfg, r, raceMode)
+	for _, sc := range seqs {
+		runSeq(sc)
+	}
+	for _, sc := range concs { // last: their case count is deterministic only without interference
+		runConc(sc)
+	}
 	w.Meta["race_mode"] = raceMode
 	w.Meta["fan_out_repetitions"] = reps
 	w.Meta["race_reports_with_lura_frames"] = raceReports
-	w.Close("regression corpus (GraphQL next to plain/filtered siblings, GET and POST endpoints, concurrent calls 2..3, mutation with invalid body) -> all ordered pairs of 14 backend shapes x concurrent_calls 1..2 x 2 client requests, all singles x cc 1..3 -> random endpoints of 1..4 backends with random filter lists (0..3 names), GraphQL options, methods, per-backend concurrent_calls 1..3, random client headers/query/params/body; every scenario is run as fan-out (stub executors meet at a barrier) and per backend alone; nontrivial = more than one backend or concurrent_calls > 1", false)
+	w.Close("regression corpus (GraphQL next to plain/filtered siblings, GET and POST endpoints, concurrent calls 2..3, mutation with invalid body) -> all ordered pairs of 14 backend shapes x concurrent_calls 1..2 x 2 client requests, all singles x cc 1..3 -> random endpoints of 1..4 backends with random filter lists (0..3 names), GraphQL options, methods, per-backend concurrent_calls 1..3, random client headers/query/params/body -> instance reuse: one factory-built endpoint proxy serving a sequence of 4..5 different requests (each step a case; corpus orders + random endpoints) and the same instance hit by 12 goroutines x 6 iterations over 4 distinct requests (one case per distinct request/observation); every scenario is run as fan-out (stub executors meet at a barrier) and per backend alone; nontrivial = more than one backend or concurrent_calls > 1", false)
 }
 
 func describe(bs []beSpec) string {
